@@ -234,6 +234,18 @@ func attrScripts() []attrScript {
 			}
 			out = append(out, attrScript{fmt.Sprintf("%#04x/len%d", t, l), func(b *wire.B) { b.Attr(t, v) }})
 		}
+		if t == wire.AttrNonce || t == wire.AttrUsername || t == wire.AttrRealm {
+			// text attributes: legal alphanumeric values of awkward lengths (a nonce is base36 / hex text)
+			for _, ch := range []byte{'0', 'Z', 'f'} {
+				for _, l := range []int{1, 24, 25, 26, 27, 40, 80, 128, 763} {
+					v := make([]byte, l)
+					for i := range v {
+						v[i] = ch
+					}
+					out = append(out, attrScript{fmt.Sprintf("%#04x/text-%c-len%d", t, ch, l), func(b *wire.B) { b.Attr(t, v) }})
+				}
+			}
+		}
 		out = append(out, attrScript{fmt.Sprintf("%#04x/overrun+1", t), func(b *wire.B) { b.RawAttr(t, 5, []byte{1, 2, 3, 4}) }})
 		out = append(out, attrScript{fmt.Sprintf("%#04x/overrun-ffff", t), func(b *wire.B) { b.RawAttr(t, 0xFFFF, []byte{1, 2, 3, 4}) }})
 	}
